@@ -236,7 +236,28 @@ class Ctx(object):
             it = self.pool().imap_unordered(_call, [(fn, t) for t in tasks],
                                             chunksize)
         t0 = last = time.time()
-        for n, res in enumerate(it):
+
+        def results():
+            # poll, so that a stop request is honoured while tasks are running
+            if not hasattr(it, "next"):
+                for r in it:
+                    yield r
+                return
+            n = 0
+            while True:
+                try:
+                    r = it.next(timeout=5)
+                except multiprocessing.TimeoutError:
+                    if _STOP["flag"] or (_STOP["deadline"] and time.time() > _STOP["deadline"]):
+                        raise Interrupted("stopped after %d of %d tasks of this stage (%s)"
+                                          % (n, len(tasks), "SIGTERM" if _STOP["flag"] else "VERIF_BUDGET_S used up"))
+                    continue
+                except StopIteration:
+                    return
+                n += 1
+                yield r
+
+        for n, res in enumerate(results()):
             if _STOP["flag"] or (_STOP["deadline"] and time.time() > _STOP["deadline"]):
                 raise Interrupted("stopped after %d of %d tasks of this stage (%s)"
                                   % (n, len(tasks), "SIGTERM" if _STOP["flag"] else "VERIF_BUDGET_S used up"))
